@@ -6,6 +6,7 @@ PROPERTY = "C01"
 BUDGET = {"quick": 900, "thorough": 3000}
 namespaces = common.namespaces
 real_namespace = common.real_namespace
+CRITICAL = ("cl_pipe", "chunk_ext_tr", "cl_te", "te10_ka", "te_padded", "chunk_bigsize", "close_pipe")
 GOALS = ["chunked body delivered", "content-length body delivered", "refused 400", "refused 501", "pipelined second message delivered",
          "closed after CL+TE message"]
 ASSUMPTIONS = [
@@ -20,20 +21,24 @@ STUBS = ["socket (SimSocket, accepts every send)", "task dispatcher (synchronous
 
 
 def BOUNDS(tier):
-    w = 2 if tier == "quick" else 3
-    return ("F1: every skeleton of harness/streams.K (%d messages / pipelines), a window of w=%d fully symbolic bytes substituted at and "
+    w = "1 (2 on the framing-critical skeletons %s)" % (CRITICAL,) if tier == "quick" else "2 (3 on the framing-critical skeletons %s)" % (CRITICAL,)
+    return ("F1: every skeleton of harness/streams.K (%d messages / pipelines), a window of w=%s fully symbolic bytes substituted at and "
             "inserted at every byte position, all 256^w values; F2: all byte strings of length <= %d as chunked body / inside a chunk / "
             "at the chunk terminator / in the trailer / as header block / as request line; F3: Content-Length values and chunk-size "
             "lines of <= %d fully symbolic bytes.  Outside: longer symbolic spans, >3 pipelined messages, bodies > 16 bytes." % (
                 len(streams.K), w, 5 if tier == "quick" else 7, 3 if tier == "quick" else 4))
 
 
+CRITICAL = ("cl_pipe", "chunk_ext_tr", "cl_te", "te10_ka", "te_padded", "chunk_bigsize", "close_pipe")
+
+
 def jobs(tier):
+    allk = list(streams.K)
     if tier == "quick":
-        js = streams.f1_jobs(list(streams.K), 1) + streams.f1_jobs(list(streams.K), 2, per_job=6)
+        js = streams.f1_jobs(allk, 1) + streams.f1_jobs(CRITICAL, 2, per_job=6)
         js += streams.f2_jobs(5) + streams.f3_jobs(3)
     else:
-        js = streams.f1_jobs(list(streams.K), 2, per_job=6) + streams.f1_jobs(list(streams.K), 3, per_job=2)
+        js = streams.f1_jobs(allk, 1) + streams.f1_jobs(allk, 2, per_job=6) + streams.f1_jobs(CRITICAL, 3, per_job=2)
         js += streams.f2_jobs(7) + streams.f3_jobs(4)
     return js
 
